@@ -2,6 +2,7 @@
    the harness runs quick-xml over the files, encodes the events it saw, and compares the
    crate's `gather_fibex_data` / `extract_metadata` results with [op_fibex] / [op_fibex_lookup]. *)
 From DltV.Model Require Import Bytes RustInt Dlt Wire Fibex.
+From DltV.Spec Require Import FibexSpec.
 Open Scope N_scope.
 
 (* ---------- readers ---------- *)
@@ -25,12 +26,71 @@ Definition r_xevent : rd xevent :=
   | _ => rfail
   end.
 
+(* a file of a case: 0 = missing | 1, the XML text (used by the implementation side only), its events *)
 Definition r_xfile : rd xfile :=
   rlet k := r_n in
   match k with
   | 0 => rret FileMissing
-  | 1 => rlet evs := r_list r_xevent in rret (FileEvents evs)
+  | 1 => rlet _xml := r_bytes in rlet evs := r_list r_xevent in rret (FileEvents evs)
   | _ => rfail
+  end.
+
+(* the abstract elements of Spec/FibexSpec.v *)
+Definition r_instance : rd (N * bstr) := rlet s := r_n in rlet r := r_bytes in rret (s, r).
+Definition r_element : rd element :=
+  rlet k := r_n in
+  match k with
+  | 0 => rlet id := r_bytes in rlet sn := r_bytes in rlet d := r_opt r_bytes in rlet bl := r_n in
+         rlet sigs := r_list r_instance in rret (ElPdu (mkAPdu id sn d bl sigs))
+  | 1 => rlet id := r_bytes in rlet sn := r_bytes in rlet bl := r_n in
+         rlet app := r_opt r_bytes in rlet ctx := r_opt r_bytes in
+         rlet mt := r_opt r_bytes in rlet mi := r_opt r_bytes in
+         rlet pdus := r_list r_instance in rret (ElFrame (mkAFrame id sn bl app ctx mt mi pdus))
+  | 2 => rlet id := r_bytes in rlet c := r_bytes in rret (ElSignal id c)
+  | 3 => rlet id := r_bytes in rlet b := r_bytes in rret (ElCoding id b)
+  | _ => rfail
+  end.
+Definition r_layout : rd layout := r_list (r_list r_element).
+
+(* files, style (0 = rendered exactly in the canonical event shape, 1 = a document with wrappers and
+   white space), optional abstract layout *)
+Definition r_fibex_case : rd (list xfile * N * option layout) :=
+  rlet files := r_list r_xfile in rlet style := r_n in rlet l := r_opt r_layout in rret (files, style, l).
+
+(* ---------- equality of event lists (is the file what Spec.files_of renders?) ---------- *)
+Definition opt_bytes_eqb (a b : option bstr) : bool :=
+  match a, b with
+  | Some x, Some y => bytes_eqb x y
+  | None, None => true
+  | _, _ => false
+  end.
+Definition xattr_eqb (a b : xattr) : bool :=
+  match a, b with
+  | AttrErr, AttrErr => true
+  | Attr k v, Attr k' v' => bytes_eqb k k' && opt_bytes_eqb v v'
+  | _, _ => false
+  end.
+Fixpoint list_eqb {A} (eqb : A -> A -> bool) (a b : list A) : bool :=
+  match a, b with
+  | [], [] => true
+  | x :: a', y :: b' => eqb x y && list_eqb eqb a' b'
+  | _, _ => false
+  end.
+Definition xevent_eqb (a b : xevent) : bool :=
+  match a, b with
+  | XStart n l, XStart n' l' => bytes_eqb n n' && list_eqb xattr_eqb l l'
+  | XEmpty n l, XEmpty n' l' => bytes_eqb n n' && list_eqb xattr_eqb l l'
+  | XEnd n, XEnd n' => bytes_eqb n n'
+  | XText t, XText t' => opt_bytes_eqb t t'
+  | XOther, XOther => true
+  | XErr, XErr => true
+  | _, _ => false
+  end.
+Definition xfile_eqb (a b : xfile) : bool :=
+  match a, b with
+  | FileMissing, FileMissing => true
+  | FileEvents x, FileEvents y => list_eqb xevent_eqb x y
+  | _, _ => false
   end.
 
 (* ---------- canonical order of the two maps ---------- *)
@@ -91,25 +151,47 @@ Definition w_load_result (x : load_result) : list wtok :=
   | OutOfFuel => [WN 3]
   end.
 
-(* ---------- operations ---------- *)
-(* gather_fibex_data on the given files *)
-Definition op_fibex (ts : list wtok) : list wtok :=
-  run_rd (r_list r_xfile) ts (fun files => w_load_result (load files)).
+(* [denote] lists ALL definitions in order and is read with first-match lookups; for printing keep the
+   entry a lookup finds (the first of each key) *)
+Fixpoint first_wins {K V} (eqb : K -> K -> bool) (seen : list K) (l : list (K * V)) : list (K * V) :=
+  match l with
+  | [] => []
+  | x :: t =>
+    if existsb (eqb (fst x)) seen then first_wins eqb seen t
+    else x :: first_wins eqb (fst x :: seen) t
+  end.
+Definition canon_metadata (m : fibex_metadata) : fibex_metadata :=
+  mkMeta (first_wins frame_key_eqb [] (frame_map_with_key m)) (first_wins bytes_eqb [] (frame_map m)).
 
-(* gather_fibex_data, then extract_metadata(model, id, extended header with these ids) *)
+(* ---------- operations ---------- *)
+(* 50: gather_fibex_data on the given files; with a layout also: is the file list exactly the
+   canonical rendering (style 0 only), and the meaning [denote] of the layout *)
+Definition op_fibex (ts : list wtok) : list wtok :=
+  run_rd r_fibex_case ts (fun '(files, style, lay) =>
+    w_load_result (load files)
+    ++ match lay with
+       | None => [WN 0]
+       | Some l =>
+         WN 1 :: w_bool (if style =? 0 then list_eqb xfile_eqb files (files_of l) else true)
+         ++ w_opt w_metadata (option_map canon_metadata (denote (concat l)))
+       end).
+
+(* 51: gather_fibex_data, then extract_metadata(model, id, extended header with these ids) *)
 Definition lookup_header (ids : bstr * bstr) : ext_header :=
   mkExt false 0 (MLog Info) (snd ids) (fst ids).             (* (context_id, app_id) *)
 Definition op_fibex_lookup (ts : list wtok) : list wtok :=
-  run_rd (rlet files := r_list r_xfile in
+  run_rd (rlet c := r_fibex_case in
           rlet id := r_n in
           rlet eh := r_opt (rlet c := r_bytes in rlet a := r_bytes in rret (c, a)) in
-          rret (files, id, eh)) ts
-    (fun '(files, id, eh) =>
-       match gather_fibex_data files with
-       | None => [WN 0]
-       | Some m =>
+          rret (c, id, eh)) ts
+    (fun '((files, _, _), id, eh) =>
+       match load files with
+       | Loaded m =>
          match extract_metadata m id (option_map lookup_header eh) with
          | None => [WN 1; WN 0]
          | Some f => WN 1 :: WN 1 :: w_frame f
          end
+       | Refused => [WN 0]
+       | LoadPanic => [WN 2]
+       | OutOfFuel => [WN 3]
        end).
